@@ -2,6 +2,7 @@ SPECIFICATION Spec
 INVARIANT Inv_EqSat
 INVARIANT Inv_PubLinked
 INVARIANT Inv_OneContext
+INVARIANT Inv_FnFilesLocal
 INVARIANT Inv_SplitComplete
 INVARIANT Inv_SameFn
 INVARIANT Inv_Glue
